@@ -92,6 +92,41 @@ def run_native(prop, tier, seed, src):
             os.remove(outp)
 
 
+def _second(args):
+    cmd, path = args
+    try:
+        p = subprocess.run(cmd + [path], capture_output=True, text=True, timeout=90)
+        out = (p.stdout.strip().splitlines() or ["error"])[0]
+        return path, out if out in ("unsat", "sat", "unknown") else "unknown" if "timeout" in out else "error"
+    except Exception:
+        return path, "error"
+
+
+def cross_check(cross_dir, obl):
+    """thorough tier: every quantifier-free core refuted by z3 5.1 (strategies qfi/qf/qfix) is re-checked by the Debian
+    z3 4.8.12 binary, and by cvc5 1.0.3 when the core has no z3-only construct (array lambdas).  A `sat` from either is
+    recorded as an undecided obligation (it degrades, it never becomes a violation by itself)."""
+    import glob
+    import shutil
+    from concurrent.futures import ThreadPoolExecutor
+    files = sorted(glob.glob(os.path.join(cross_dir, "*.smt2")))
+    res = {"cores": len(files), "z3-4.8.12": {}, "cvc5-1.0.3": {}, "disagreements": []}
+    jobs = [(["/usr/bin/z3", "-T:30"], f) for f in files]
+    plain = [f for f in files if "(lambda " not in open(f).read()]
+    jobs2 = [(["/usr/bin/cvc5", "--tlimit=30000", "-q", "--strings-exp"], f) for f in plain]
+    with ThreadPoolExecutor(8) as ex:
+        for name, js in (("z3-4.8.12", jobs), ("cvc5-1.0.3", jobs2)):
+            for path, out in ex.map(_second, js):
+                res[name][out] = res[name].get(out, 0) + 1
+                if out == "sat":
+                    oid = open(path).readline().split("obligation ", 1)[-1].split(" (strategy")[0].strip()
+                    res["disagreements"].append({"solver": name, "obligation": oid})
+                    obl["crosscheck/%s:%s" % (name, oid)] = {"status": "undecided", "ms": 0, "backend": name,
+                                                           "note": "%s answers sat on the quantifier-free core z3 5.1 refuted" % name}
+    shutil.rmtree(cross_dir, ignore_errors=True)
+    return res
+
+
 def replay_known(entry, src):
     """an open finding suppresses its obligation only while its witness still fails natively"""
     rp = entry.get("witness", {}).get("replay")
@@ -127,7 +162,13 @@ def main():
     trusted = sorted(q for q, K in registry.CONTRACTS.items() if prop in K.props and K.trusted)
     ledger = json.load(open(LEDGER)) if os.path.exists(LEDGER) else {}
     hints = {oid: v.get("strategy") for oid, v in ledger.get(prop, {}).items() if isinstance(v, dict) and v.get("strategy") not in (None, "plain-fast")}
+    cross_dir = None
+    if tier == "thorough" and not a.update_ledger:
+        # second-solver cross-check: the quantifier-free cores z3 5.1 refutes are written out and re-checked by other binaries
+        cross_dir = tempfile.mkdtemp(prefix="verif_cross_")
+        os.environ["VERIF_CROSS_DIR"] = cross_dir
     proofs = run_proofs(quals, src, timeout_ms, workers, hints)
+    os.environ.pop("VERIF_CROSS_DIR", None)
     static_res = {}
     for fn in cfg.get("static", []):
         try:
@@ -153,6 +194,7 @@ def main():
             if not v["requires_satisfiable"]:
                 obl["%s/vacuity:%s" % (q.replace("measured.", ""), v["combo"])] = {"status": "undecided", "note": "contradictory requires", "ms": 0, "function": q}
     obl.update(static_res)
+    cross = cross_check(cross_dir, obl) if cross_dir else None
     # vacuity canaries (DESIGN 2.10): a deliberately false lemma must NOT be provable
     for oid in list(obl):
         if "lemmas.canary_" in oid and "/unexpected:AssertionError" in oid:
@@ -167,6 +209,7 @@ def main():
         ledger[prop] = {oid: {"status": r["status"], "strategy": r.get("strategy") or (prev.get(oid, {}).get("strategy") if isinstance(prev.get(oid), dict) else None)}
                         for oid, r in sorted(obl.items())}
         ledger.setdefault("__deps__", {})[prop] = {q: r.get("deps") for q, r in sorted(proofs.items()) if r.get("deps")}
+        ledger["__deps__"][prop].update({"@" + oid: r["deps"] for oid, r in sorted(static_res.items()) if r.get("deps")})
         json.dump(ledger, open(LEDGER, "w"), indent=1, sort_keys=True)
         print("ledger updated for %s: %d obligations, %d discharged" % (prop, len(obl), sum(1 for r in obl.values() if r["status"] == "discharged")))
 
@@ -181,10 +224,29 @@ def main():
     # function's failing obligations are tried again with twice the budget; what still fails then is a failed obligation of
     # changed code and is reported (with the stand-in's failing input when there is one).
     base_deps = ledger.get("__deps__", {}).get(prop, {})
+    # an obligation the ledger does not know (a new call site, a renumbered one) in a function whose every ledger
+    # obligation was discharged counts as "was discharged": the function verified completely before the change
+    by_fn = {}
+    for oid, st_ in base.items():
+        by_fn.setdefault(oid.split("/")[0], []).append(st_)
+    for oid, r in obl.items():
+        fnkey = oid.split("/")[0]
+        if oid not in base and r.get("function") and "/engine:" not in oid and by_fn.get(fnkey) and all(x == "discharged" for x in by_fn[fnkey]):
+            base[oid] = "discharged"
     changed_fns = set()
     for oid, r in obl.items():
         q = r.get("function")
-        if r["status"] != "discharged" and q and base.get(oid) == "discharged" and q in base_deps and proofs.get(q, {}).get("deps") and proofs[q]["deps"] != base_deps[q]:
+        if r["status"] == "discharged" or not q or base.get(oid) != "discharged":
+            continue
+        if r.get("deps") is not None:
+            # a static verdict about one function's text: no second attempt, the scan is deterministic
+            known_shas = {}
+            for k_, d_ in base_deps.items():
+                if k_.startswith("@"):
+                    known_shas.update(d_)
+            if any(known_shas.get(fq) != sha for fq, sha in r["deps"].items()):
+                r["source_changed"] = True
+        elif q in base_deps and proofs.get(q, {}).get("deps") and proofs[q]["deps"] != base_deps[q]:
             changed_fns.add(q)
     escalated = {}
     _nk = [k for f in open_f for k in f.get("native_keys", [])]
@@ -280,6 +342,8 @@ def main():
         "source_files": _hashes(src),
         "known_findings": [f.get("what_fails", f.get("obligation")) for f in open_f],
     }
+    if cross is not None:
+        cov["second_solver"] = cross
     if native is not None:
         cov["bounded"] = {"label": "bounded stand-in on the real code (never counted as proved)", "evaluations": native.get("evaluations", 0),
                           "distinct_nontrivial": native.get("distinct", 0), "rule": native.get("rule", ""), "bound": native.get("bound", ""),
